@@ -73,7 +73,11 @@ where
     let vi: (&T, usize) = a
         .iter()
         .zip(0..)
-        .max_by(|x, y| x.0.abs().partial_cmp(&y.0.abs()).unwrap())
+        .max_by(|x, y| {
+            x.0.abs()
+                .partial_cmp(&y.0.abs())
+                .unwrap_or(std::cmp::Ordering::Equal)
+        })
         .unwrap();
     vi.1
 }
